@@ -2,6 +2,7 @@ package harness
 
 import (
 	"fmt"
+	"math"
 	"os"
 	"path/filepath"
 	"regexp"
@@ -211,8 +212,9 @@ func genC05CaseFor(t *rapid.T, rule string) (c *ScalarCase, class string) {
 	case "unique":
 		switch rapid.IntRange(0, 2).Draw(t, "uniqInput") {
 		case 0:
-			ek := rapid.SampledFrom([]string{"int", "string", "float64", "bool", "float32"}).Draw(t, "ek")
+			ek := rapid.SampledFrom([]string{"int", "string", "float64", "bool", "float32", "int64", "uint64"}).Draw(t, "ek")
 			n := rapid.IntRange(1, 4).Draw(t, "n")
+			big := rapid.Bool().Draw(t, "bigInts")
 			var es []desc.V
 			for i := 0; i < n; i++ {
 				switch ek {
@@ -226,8 +228,15 @@ func genC05CaseFor(t *rapid.T, rule string) (c *ScalarCase, class string) {
 					es = append(es, desc.V{F: f})
 				case "bool":
 					es = append(es, desc.V{B: rapid.Bool().Draw(t, "e")})
+				case "uint64":
+					es = append(es, desc.V{U: rapid.SampledFrom([]uint64{0, 1, 2, math.MaxUint64, math.MaxUint64 - 1, 1 << 53, 1<<53 + 1, 1 << 63, 1<<63 + 1}).Draw(t, "e")})
 				default:
-					es = append(es, desc.V{I: int64(rapid.IntRange(0, 3).Draw(t, "e"))})
+					if big {
+						// neighbours beyond 2^53: different integers, one float64
+						es = append(es, desc.V{I: rapid.SampledFrom([]int64{1 << 53, 1<<53 + 1, math.MaxInt64, math.MaxInt64 - 1, math.MinInt64, math.MinInt64 + 1, 1234567890123456789, 1234567890123456790, 3}).Draw(t, "e")})
+					} else {
+						es = append(es, desc.V{I: int64(rapid.IntRange(0, 3).Draw(t, "e"))})
+					}
 				}
 			}
 			c.T, c.Val = desc.Slice(desc.Scalar(ek)), desc.V{E: es}
